@@ -355,7 +355,8 @@ class Gen:
 
     # ------------------------------------------------------------------ impl blocks
     def case_impl(self, allow_invalid=False):
-        attrs = self.attrs(0.15, ["#[async_trait::async_trait]", "#[async_trait]", "#[doc = \"i\"]", "#[allow(unused)]"])
+        attrs = self.attrs(0.15, ["#[async_trait::async_trait]", "#[async_trait]", "#[doc = \"i\"]", "#[allow(unused)]",
+                                  "#[mockall::automock]", "#[automock]", "#[cfg(all())]", "#[my::automock(x)]", "#[inline]"])
         pre = "unsafe " if self.maybe(0.05) else ""
         path = self.pick(["FooImpl", "crate::FooImpl", "super::a::TheImpl", "::abs::FooImpl"])
         ty = self.pick(["MyType", "crate::MyType", "Gen<u8>", "(A, B)", "&'static MyType", "[u8; 2]"])
